@@ -58,7 +58,7 @@ func DefaultWeights() Weights {
 		"totpsetup": 3, "totpconfirm": 3, "totpremove": 1, "totpvalidate": 5, "totpgetsetup": 1,
 		"smssetup": 3, "smsconfirm": 3, "smsremove": 1, "smsvalidate": 6, "smsgetsetup": 1,
 		"regen": 1, "vstart": 2, "vend": 2, "prot": 5, "open": 1, "lockmw": 1, "confirmmw": 1, "rootmw": 1,
-		"adv": 6, "keepalive": 2, "xfactor": 2, "enrolchain": 2, "recchain": 1, "apilock": 1, "apiunlock": 1, "updpw": 1, "setcookie": 3, "stealcookie": 2,
+		"adv": 6, "keepalive": 2, "xfactor": 2, "enrolchain": 0, "recchain": 1, "apilock": 1, "apiunlock": 1, "updpw": 1, "setcookie": 3, "stealcookie": 2,
 	}
 }
 
